@@ -6,6 +6,7 @@ CONSTANTS
   EscAware = TRUE
   PA = {123, 125, 91, 93, 34, 92, 49, 44, 58}
   LP = 4
+  LP1 = 3
   LP2 = 1
   HA = {123, 125, 91, 93, 34, 92, 49, 44, 32}
   LH = 3
